@@ -1,7 +1,7 @@
 (* extraction of the C11 executable models; ExtrOcamlBasic only *)
 Require Extraction.
 Require Import ExtrOcamlBasic.
-Require Import Base Tables_rules LintGroupCfg.
+Require Import Base Tables_rules LintGroupCfg C11Curated C11Cache.
 Extraction Language OCaml.
 Extraction "../ocaml/gen/c11_model.ml" run_cops run_dispatch parse_cfg print_cfg hash_calls hash_bytes
-  curated_cfg curated_names is_rule_enabled get.
+  curated_cfg curated_names is_rule_enabled get program_cfg program_names run_history.
